@@ -308,7 +308,7 @@ func Run(r *core.Run) {
 	core.Parallel(len(reqs), func(i int) {
 		rc := reqs[i]
 		cfgs := []cfgCase{{"baseline", base}}
-		if i < nValid || strings.Contains(rc.label, "sha512") {
+		if i < nValid || strings.Contains(rc.label, "sha512") || r.Thorough() {
 			cfgs = configsFor(rc)
 		}
 		for _, cc := range cfgs {
